@@ -49,12 +49,20 @@ pub fn generate(id: &str, run_seed: u64, _thorough: bool) -> Plan {
     let full = GeneralOpts { rich_payloads: false, consumer_faults: true, publisher_faults: true, deletes: true, push: false, stalls: true, big_batches: true, single_drain_consumer_share: 10 };
     match id {
         "C01" => {
-            if pick < 75 {
+            if pick < 60 {
                 f_general(run_seed, &full)
-            } else if pick < 90 {
+            } else if pick < 72 {
                 f_general(run_seed, &GeneralOpts { push: true, ..full })
-            } else {
+            } else if pick < 82 {
                 f_lease(run_seed, &LeaseOpts { modacks: true, limits: true })
+            } else if pick < 88 {
+                // racing creates / deletes of a few names, with publishes and a final drain
+                f_names(run_seed, 1 + pick % 3, false)
+            } else if pick < 94 {
+                f_dupcreate(run_seed)
+            } else {
+                // backlogs and pull limits above 1000
+                f_limits(run_seed, false)
             }
         }
         "C02" => {
@@ -91,9 +99,21 @@ pub fn generate(id: &str, run_seed: u64, _thorough: bool) -> Plan {
                 f_general(run_seed, &GeneralOpts { stalls: false, ..full })
             }
         }
-        "C08" => f_general(run_seed, &GeneralOpts { consumer_faults: false, publisher_faults: false, deletes: false, single_drain_consumer_share: 30, ..full }),
+        "C08" => {
+            if pick < 6 {
+                f_bigbatch(run_seed)
+            } else {
+                f_general(run_seed, &GeneralOpts { consumer_faults: false, publisher_faults: false, deletes: false, single_drain_consumer_share: 30, ..full })
+            }
+        }
         "C09" => f_general(run_seed, &GeneralOpts { rich_payloads: true, publisher_faults: false, push: pick < 50, big_batches: false, ..full }),
-        "C10" => f_names(run_seed, 1 + pick % 4, pick < 50),
+        "C10" => {
+            if pick < 90 {
+                f_names(run_seed, 1 + pick % 4, pick < 50)
+            } else {
+                f_dupcreate(run_seed).with_tag("names")
+            }
+        }
         "C11" => {
             if pick < 60 {
                 f_names(run_seed, pick % 3, false)
